@@ -62,6 +62,7 @@ type EnvCfg struct {
 	ErrWithLast bool `json:"err_with_last"`                          // final data delivered together with the error
 	ZeroReads   int  `json:"zero_reads"`                             // (0,nil) answers before every data read
 	Len         bool `json:"source_has_len,omitempty"`               // the source also has a Len() method: bytes readable right now without blocking (as connections and ring buffers have)
+	SmallFirst  int  `json:"first_reads_deliver_one_byte,omitempty"` // the first K Read calls deliver a single byte each (small messages arriving alone), later ones follow Chunk
 	TailZeros   int  `json:"empty_reads_before_the_error,omitempty"` // once the data is exhausted the source answers this many Reads with (0, nil) before it returns its error
 	Err         int  `json:"err"`                                    // index into termErrs
 	AfterErr    int  `json:"after_err,omitempty"`                    // what a Read AFTER the terminal error answers: 0 the same error again, 1 bogus data (0x7b...) then another error
@@ -75,6 +76,9 @@ func (e EnvCfg) String() string {
 	if e.TailZeros > 0 {
 		s += fmt.Sprintf(" emptyReadsBeforeError=%d", e.TailZeros)
 	}
+	if e.SmallFirst > 0 {
+		s += fmt.Sprintf(" first%dReadsDeliver1Byte", e.SmallFirst)
+	}
 	if e.AfterErr != 0 {
 		s += " after-error=bogus-data-then-other-error"
 	}
@@ -87,6 +91,7 @@ type EnvReader struct {
 	pos int
 
 	zr          int
+	dataReads   int
 	tz          int
 	Calls       int
 	BytesOut    int
@@ -257,6 +262,10 @@ func (e *EnvReader) Read(p []byte) (int, error) {
 	if e.Cfg.Chunk > 0 && n > e.Cfg.Chunk {
 		n = e.Cfg.Chunk
 	}
+	if e.dataReads < e.Cfg.SmallFirst && n > 1 {
+		n = 1
+	}
+	e.dataReads++
 	withErr := e.Cfg.ErrWithLast
 	switch dev {
 	case 1: // one byte
